@@ -75,7 +75,8 @@ def make_op(env, words, complex_coefs=False, ident=False):
     op = QubitOperator()
     terms = {}
     for i, w in enumerate(words):
-        c = env.complex(f"c{i}") if complex_coefs else env.real(f"c{i}", lo=-3, hi=3)
+        cplx = complex_coefs if isinstance(complex_coefs, bool) else bool(complex_coefs[i])      # bool, or one flag per term
+        c = env.complex(f"c{i}") if cplx else env.real(f"c{i}", lo=-3, hi=3)
         op.terms[tuple(w)] = c
         terms[tuple(w)] = c
     if ident:
@@ -442,6 +443,14 @@ def shapes(tier, seed):
     for i, (ws, spec) in enumerate(sy):
         out.append(Shape(f"sympy/expect/{i}", h_sympy_expect, dict(words=ws, spec=spec, n=2), modules=MODS))
     out.append(Shape("canary/sympy/expect", h_sympy_expect, dict(words=sy[0][0], spec=sy[0][1], n=2, canary=True), modules=MODS, canary=True))
+    # coefficient TYPES mixed inside one operator (complex first / last / middle)
+    w3 = [[(0, "X"), (1, "Y")], [(0, "Z")], [(1, "X")]]
+    for nm, flags in (("complex-first", (1, 0, 0)), ("complex-last", (0, 0, 1)), ("complex-middle", (0, 1, 0))):
+        if nm != "complex-middle" or tier == "thorough":     # the middle case needs > 20 s of solver time (var_imag == 0 branch)
+            out.append(Shape(f"variance/mixed/{nm}", h_variance, dict(words=w3, spec=PREPS[2], n=2, complex_coefs=flags), modules=MODS))
+        for route in routes:
+            out.append(Shape(f"expect/{route}/mixed/{nm}", h_expect, dict(route=route, words=w3, spec=PREPS[2], n=2, init=False, complex_coefs=flags),
+                             modules=MODS))
     out.append(Shape("variance/1", h_variance, dict(words=[[(1, "Y")]], spec=PREPS[3], n=2), modules=MODS))
     for i, route in enumerate(routes):
         for outcome in (0, 1):
